@@ -882,6 +882,9 @@ func runC20(p *Program, r *Report) {
 		what := ""
 		if cs.Kind == "go" {
 			what = "go " + cs.Name
+			if cs.Callee != nil && cs.Callee.Parent() != nil {
+				what = "go " + p.FuncName(cs.Callee)
+			}
 		} else if cs.Name == "time.AfterFunc" {
 			what = "time.AfterFunc"
 		} else {
